@@ -127,8 +127,13 @@ def run_case(case):
     weakly = rng.random() < 0.3
     sig, conds, fam = gen.gen_base(rng, 'weak_or_strong' if weakly else 'strong',
                                    family=rng.choice([None, None, None, 'multiex', 'chain', 'conjcons', 'indep']))
+    twins = conds and tname in ('rewrite-base', 'compose', 'reorder') and rng.random() < 0.6
+    if twins:
+        # an identically spelled duplicate of one rule (counted twice by lexicographic inference); the
+        # transformation below re-spells exactly one of the two copies
+        conds = list(conds) + [conds[rng.randrange(len(conds))]]
     n = len(conds)
-    qs = gen.gen_queries(rng, sig, conds, 6, extra_atom_p=0.0, p_tie=0.4)
+    qs = gen.gen_queries(rng, sig, conds, 6, extra_atom_p=0.0, p_tie=0.8 if twins else 0.4)
     if rng.random() < 0.5 and conds:
         qs[0] = conds[0]                     # the first rule as a query (direct inference)
     mode = 'extended' if weakly else 'strict'
@@ -189,6 +194,12 @@ def run_case(case):
     def t_rewrite_base():
         nonlocal conds2
         idx = rng.sample(range(n), rng.randint(1, n))
+        dup = [i for i in range(n) if conds2.count(conds2[i]) > 1]
+        if dup and rng.random() < 0.8:
+            # exactly one copy of a duplicated rule is re-spelled, the other copies stay as they are
+            i = rng.choice(dup)
+            idx = [j for j in idx if conds2[j] != conds2[i]] + [i]
+            bump('rewrite_one_copy_of_duplicate')
         conds2 = [rewrite_cond(rng, B, A, sig) if i in idx else (B, A) for i, (B, A) in enumerate(conds2)]
         tdesc['rewritten_base'] = [fml.cond_text(*c) for c in conds2]
 
@@ -205,7 +216,10 @@ def run_case(case):
          'rename': [t_rename], 'signature': [t_signature], 'rewrite-base': [t_rewrite_base],
          'rewrite-query': [t_rewrite_query], 'query-key': [t_qkey]}
     if tname == 'compose':
-        for k in rng.sample(sorted(T), rng.randint(2, 4)):
+        ks = rng.sample(sorted(T), rng.randint(2, 4))
+        if twins and 'rewrite-base' not in ks:
+            ks.append('rewrite-base')
+        for k in ks:
             T[k][0]()
     else:
         T[tname][0]()
